@@ -23,6 +23,19 @@ CLAIMED.update({
    note="The effective target is observed indirectly through the add-everything script for an empty device; PAN-OS Netspoc rulebases are generated without explicit deny rules; NSX order is by sequence number, only completeness is checked there."),
 })
 
+CLAIMED.update({
+ "C13": dict(
+   category="exploration", design="DESIGN.md §3 C13",
+   technique="runtime monitoring: reference model over conclusive observations vs. the real missing-approve after every event of exhaustively enumerated histories",
+   text="All histories up to depth 5 (quick) / 7 (thorough) over 15 event kinds (new policy same/v4/v6/raw, approve ok/failed, compare, drift, repair, bzip2, removal, four kinds of status damage) are executed: status updates by the repository's own status.SetApprove/SetCompare (statusdrv rebuilt from /repo), file events as real file operations, and the real missing-approve binary is run after every event; plus every byte-offset truncation of the status contents seen. Exact-state memoisation only.",
+   note="The abstraction do-approve => SetApprove(failed)/SetCompare(changed||errors) is read off doapprove.Main; forged-but-valid JSON status files and compressing the current policy are outside the claim."),
+ "C19": dict(
+   category="fault_enumeration", design="DESIGN.md §3 C19",
+   technique="runtime monitoring with fault injection: BASH_ENV DEBUG-trap kill at every simple command of the unmodified newpolicy.sh, SIGKILL while parked in children, concurrent invocations; file-tree monitor after every event",
+   text="For nine commit histories the real newpolicy.sh is killed at every simple command of its reference run (thorough; quick: every 3rd step of three histories), killed from outside while parked inside git clone / the compiler stub (orphan keeps the lock), and raced by 1-3 contenders; after every event the monitor checks current absent-or-complete-and-compiling, increasing numbers, non-interleaved compiler runs, and that one undisturbed run makes the newest compiling revision current.",
+   note="Compiler and mail are stubs, sudo branch not taken; kills happen on simple-command boundaries and inside the two long-running children only; liveness is the bounded one-run form."),
+})
+
 PENDING = {
 }
 
